@@ -167,8 +167,8 @@ def run(ctx):
     q = ctx.quick
     ns = 16
     ctx.units("alphabet-exhaustive", unit_alpha, [{"shard": i, "nshards": ns, "sample": 0, "seed": ctx.seed} for i in range(ns)], procs=ns)
-    ctx.units("unicode-hypothesis", unit_hyp, [{"n": 700 if q else 8000, "seed": ctx.seed, "shard": i} for i in range(3 if q else 16)], procs=16)
-    ctx.units("compiler-reuse", unit_reuse, [{"n": 300 if q else 4000, "seed": ctx.seed, "shard": i} for i in range(4 if q else 16)], procs=16)
+    ctx.units("unicode-hypothesis", unit_hyp, [{"n": 1050 if q else 8000, "seed": ctx.seed, "shard": i} for i in range(8 if q else 16)], procs=16)
+    ctx.units("compiler-reuse", unit_reuse, [{"n": 450 if q else 4000, "seed": ctx.seed, "shard": i} for i in range(8 if q else 16)], procs=16)
     from . import textdocs
     textdocs.run_text(ctx, "C09")
     ctx.exhaustive = False
